@@ -16,16 +16,21 @@
                  `ca.refreshController()` on NOT_CONTROLLER and the return value
      Backoff     `time.Sleep(Backoff); continue`
 
-   Quirks of the pinned tree are modelled as they are, switched by constants so that the
-   same clauses can be model-checked on the repaired design:
-     Budget = "pinned"   the loop runs Retry.Max attempts, i.e. NONE when Retry.Max = 0,
-                         and then returns the zero error value = success
-              "retries"  Retry.Max retries after a first attempt (what config.go documents)
-     AlterQuirks         AlterPartitionReassignments wraps every error into
-                         ErrReassignPartitions before retryOnError sees it, so
-                         isErrNoController never matches: no refresh, no retry; and it
-                         tests the top-level code with `> 0`, so UNKNOWN (-1) is success
+   The reference variant models admin.go as it is in /repo now (after the fix: commits):
+     Budget = "retries"  a first attempt, then up to Admin.Retry.Max retries
+     AlterQuirks = FALSE AlterPartitionReassignments returns a top-level NOT_CONTROLLER as a
+                         KError after refreshing the controller (retried like the other three)
+                         and reports every other top-level code as an error
+   The defects the pinned tree had are kept as switchable quirks (legacy variant, documents
+   known_findings F-C19-*, status fixed):
+     Budget = "pinned"   the loop ran Retry.Max attempts, i.e. NONE when Retry.Max = 0,
+                         and then returned the zero error value = success
+     AlterQuirks = TRUE  AlterPartitionReassignments wrapped every error into
+                         ErrReassignPartitions before retryOnError saw it (no refresh, no retry
+                         on NOT_CONTROLLER) and tested the top-level code with `> 0` (UNKNOWN -1
+                         was success)
      NoRefresh           (mutant, negative control of the clauses) refreshController is a no-op
+   Broker id 0 is an ordinary broker (initial controller, move target).
 
    The clauses of the property are the operators of AdminOracle applied to the history
    variables att (requests as the brokers saw them) and res.                          *)
@@ -37,7 +42,7 @@ CONSTANTS Brokers,      \* broker ids
           ErrCodes,     \* error codes a controller may answer instead of success
           Kvs,          \* op -> set of Kafka release indexes (AdminOracle) the op is run with
           Budget, AlterQuirks, NoRefresh,
-          Src,          \* tag of the cfg that emitted a case ("pinned": pred is what the pinned code should do)
+          Src,          \* tag of the cfg that emitted a case ("ref": pred is what the code in /repo should do)
           EmitCases
 
 VARIABLES op, kv, max, init,      \* the case (chosen in Init)
@@ -125,8 +130,8 @@ Handle ==
   /\ UNCHANGED <<op, kv, max, init, ctl, script, att>>
   /\ CASE pending.ans = "ack" -> Return(Nil)
        [] pending.ans = "conn" ->
-            IF op = "AlterPartitionReassignments" /\ AlterQuirks
-            THEN Return([cls |-> "agg", code |-> 0])               \* `errs = append(errs, err)`: wrapped as well
+            IF op = "AlterPartitionReassignments"
+            THEN Return([cls |-> "agg", code |-> 0])               \* `errs = append(errs, err)`: wrapped
             ELSE Return([cls |-> "other", code |-> 0])
        [] pending.ans = "inc" -> Return([cls |-> "incomplete", code |-> 0])
        [] pending.ans = "err" ->
@@ -139,7 +144,8 @@ Handle ==
             IF op = "AlterPartitionReassignments" /\ AlterQuirks
             THEN Return([cls |-> "agg", code |-> 0])               \* wrapped: not retryable, no refresh
             ELSE /\ cached' = IF NoRefresh THEN cached ELSE ctl     \* ca.refreshController()
-                 /\ lastErr' = [cls |-> TypedClsOf(op), code |-> NotController]
+                 /\ lastErr' = [cls |-> (IF op = "AlterPartitionReassignments" THEN "kerr" ELSE TypedClsOf(op)),
+                                 code |-> NotController]
                  /\ pc' = "backoff"
                  /\ UNCHANGED <<attempt, res>>
 
@@ -165,8 +171,9 @@ ReqClauses == att # <<>> => CtlReqViol(Case, att) = {}
 RetViolNow == IF pc = "done" THEN CtlRetViol(Case, att, res) ELSE {}
 RetClauses == RetViolNow = {}
 
-(* What the pinned tree is known to get wrong, by cause (these are the signatures of
-   known_findings.json); with the quirks switched on the model violates exactly these. *)
+(* What the pinned tree got wrong before the fix: commits, by cause (the signatures of the
+   F-C19-* entries of known_findings.json); with the quirks switched on the model violates
+   exactly these. *)
 KnownQuirk ==
   {c \in RetViolNow :
      \/ c = "success_only_if_acked" /\ max = 0 /\ att = <<>>
